@@ -1,7 +1,14 @@
 //! Code shared by the per-property binaries of this crate (src/bin/cNN.rs).
+pub mod abigen;
+pub mod contractgen;
 pub mod diag;
 pub mod engine;
+pub mod gen;
+pub mod spaces;
+pub mod campaign;
+pub mod replay;
 pub mod irtext;
+pub mod matchgen;
 pub mod pool;
 pub mod worker;
 
